@@ -48,10 +48,7 @@ Qed.
 
 (** ------------------------------------------------------------------
     First matching class. *)
-Definition cls_matches (cs : list cls) (pkt : PktCls.layer) (id : N) : bool :=
-  match find_cls cs id with Some c => PktCls.eval (c_cond c) pkt | None => false end.
-Definition cls_session (cs : list cls) (id : N) : option N :=
-  match find_cls cs id with Some c => c_sess c | None => None end.
+(* cls_matches, cls_session: Model/GwRoute.v *)
 
 Lemma ids_route_first cs ids pkt :
   ids_route cs ids pkt = match find (cls_matches cs pkt) ids with
@@ -913,10 +910,7 @@ Qed.
 
 (** ------------------------------------------------------------------
     Where the first decision comes from. *)
-Definition applies (r : rule) (from to : ia) (a : ipaddr) : bool :=
-  ia_match (r_from r) from && ia_match (r_to r) to && net_set (r_net r) a.
-Definition decides (r : rule) : option bool :=
-  match r_action r with AAccept => Some true | AReject => Some false | _ => None end.
+(* applies, decides: Model/GwRoute.v *)
 
 Lemma first_decision_spec : forall rules from to a d,
   first_decision rules from to a = Some d <->
